@@ -5,6 +5,7 @@ import CasModel.Path
 import CasModel.Keys
 import CasModel.Index
 import CasModel.Range
+import CasModel.Orphan
 /-
   Store: the sequential store as *event scripts*.  Every API call is a pure function from the
   pre-state (memory + disk) to the list of successful mutating filesystem calls it issues, the
@@ -195,22 +196,23 @@ structure ScanOut where
   orphaned : List Bytes
   missing : List Bytes
   corrupted : List Bytes
+  invalid : List (List Bytes)
   staging : List Nat          -- leftover staging files (by number)
   total : Nat
   deriving Repr
 
+/-- the regular files below cas/ as the scan sees them: blobs at canonical paths and strays -/
+def treeFiles (d : Disk) : List TreeFile :=
+  d.files.filterMap (fun (f, x) => match f with
+    | .cas h => some (relativePath h, x.data)
+    | .stray p => some (p, x.data)
+    | _ => none)
+
+/-- `scan_orphans` on the model disk (see Orphan.lean / Props/C08 for the exactness theorems) -/
 def scanCanonical (H : Bytes → Bytes) (verify : Bool) (idx : IndexState Bytes) (d : Disk) : ScanOut :=
-  let files := casFiles d
-  let refd := refdHashes idx.map
-  let sizeOf (h : Bytes) : Nat :=      -- ExpectedMeta: the LAST inserted (key order) wins in the HashMap
-    (idx.map.foldl (fun acc (_, i) => if i.hash = h then i.size else acc) 0)
-  { orphaned := (files.filter (fun (h, _) => !refd.contains h)).map (·.1)
-    missing := refd.filter (fun h => !(files.any (fun (h', _) => h' = h)))
-    corrupted := if verify then
-        (files.filter (fun (h, x) => refd.contains h &&
-            (x.data.length != sizeOf h || H x.data != h))).map (·.1) else []
-    staging := stagingFiles d
-    total := files.length }
+  let r := scanTree H verify idx.map (treeFiles d)
+  { orphaned := r.orphaned, missing := r.missing, corrupted := r.corrupted, invalid := r.invalid,
+    staging := stagingFiles d, total := r.total }
 
 /-! ### event scripts -/
 
@@ -409,8 +411,10 @@ def deleteOrphansScript (m : Mem) (sc : ScanOut) (d : Disk) : List Ev × Nat × 
     else if (d.applyAll evs).has (.cas h) then (evs ++ [Ev.unlink (.cas h)], del + 1, skip)
     else (evs, del, skip + 1)
   let (evs, del, skip) := sc.orphaned.foldl step ([], 0, 0)
+  let inv := sc.invalid.filter (fun p => d.has (.stray p))
   let st := sc.staging.filter (fun n => d.has (.staging n))
-  (evs ++ st.map (fun n => Ev.unlink (.staging n)), del, skip, st.length)
+  (evs ++ inv.map (fun p => Ev.unlink (.stray p)) ++ st.map (fun n => Ev.unlink (.staging n)),
+   del, skip, st.length)
 
 /-! ### reads -/
 
